@@ -38,6 +38,7 @@ def run(ck):
     ck.rule("C11.R11", "the builder's default directive is added only to a filter that parsed no directive of either kind", floor=1)
     ck.rule("C11.R10", "span-scoped directives can raise the level for a callsite the static directives turn off: EnvFilter never caches `never` while it has span directives (as C08.R11)", floor=3)
     ck.rule("C11.R14", "EnvFilter.has_dynamics is true whenever a span-scoped directive is stored: every path that adds to `dynamics` sets it, and the builder derives it from `dynamics` being non-empty", floor=2)
+    ck.rule("C11.R15", "span-directive value matchers: each record_* of the matcher visitor tests exactly the ValueMatch variants of its value kind, with the right comparison, and marks the field matched only when the test succeeds", floor=6)
     ck.rule("C11.R9", "EnvFilter Builder steps keep every other option (same-named field carry-over, as C13.R6)", floor=3)
     ck.rule("C11.R1", "directive vector mutated only by DirectiveSet::add at the binary_search position; max_level kept an upper bound", floor=5)
     ck.rule("C11.R2", "first match in storage order decides; no match disables; siblings agree", floor=4)
@@ -62,6 +63,7 @@ def run(ck):
     from rulekit.query import builder_carry_over
     builder_carry_over(ck, F, "C11.R9", ("tracing_subscriber::filter::env::builder::",))
     has_dynamics_rule(ck, F)
+    match_visitor_rule(ck, F)
     # ... and the one option that changes what a value pattern *means* is honoured where the filter is built: with
     # `with_regex(false)` every directive's patterns are turned into literal matchers, for every directive
     fd = F.body("tracing_subscriber::filter::env::builder::Builder::from_directives")
@@ -710,3 +712,67 @@ def has_dynamics_rule(ck, F):
                 ck.bad("C11.R14", key, where(st.get("sp") or b.raw["sp"]), "has_dynamics is %s" % txt[:120], fn=b.path)
     if n < 2:
         ck.bad("C11.R14", "sites that add to or assemble `dynamics`", EF, "only %d site(s) found" % n)
+
+
+def match_visitor_rule(ck, F):
+    """`[span{field=value}]=level` raises the level while a span whose recorded field *has that value* is entered. The
+    comparison lives in MatchVisitor: one decision table per value kind, keyed by the variant of the stored ValueMatch."""
+    adt = F.adts.get(E + "field::ValueMatch")
+    if not ck.anchor("C11.R15", "ValueMatch", adt):
+        return
+    vname = {i: v["name"] for i, v in enumerate(adt["variants"])}
+    WANT = {
+        "record_bool": {"Bool": "eq"}, "record_u64": {"U64": "eq"}, "record_i64": {"I64": "eq", "U64": "eq-converted"},
+        "record_f64": {"F64": "eq-epsilon", "NaN": "is_nan"}, "record_str": {"Debug": "debug_matches", "Pat": "str_matches"},
+        "record_debug": {"Debug": "debug_matches", "Pat": "debug_matches"},
+    }
+
+    def kind(t):
+        if t.startswith("debug_matches("):
+            return "debug_matches"
+        if t.startswith("str_matches("):
+            return "str_matches"
+        if t.startswith("is_nan("):
+            return "is_nan"
+        if "EPSILON" in t and (" Lt " in t or " Le " in t) and "abs(" in t:
+            return "eq-epsilon"
+        if t.startswith("eq(") and "try_into(" in t or "try_from(" in t:
+            return "eq-converted"
+        if " Eq " in t or t.startswith("eq("):
+            return "eq"
+        return "?" + t[:40]
+    for i in F.impls:
+        if i.get("trait") != "tracing_core::field::Visit" or "field::MatchVisitor" not in i["self_ty"]:
+            continue
+        for m, want in WANT.items():
+            b = F.body(i["methods"].get(m) or "")
+            key = "MatchVisitor::%s: %s" % (m, ", ".join("%s by %s" % kv for kv in sorted(want.items())))
+            if not ck.anchor("C11.R15", "MatchVisitor::" + m, b):
+                continue
+            table = {}
+            problems = []
+            for pth in PathEval(b).run():
+                if pth.end != "return":
+                    continue
+                cs = [(show(c[0]), c[1]) for c in pth.conds if c[0][0] != "const"]
+                stored = any(c[1].get("method") == "store" for c in pth.calls)
+                var = [v for t, v in cs if t.startswith("discr((get(") or t.startswith("discr(((get(")]
+                tests = [(t, v) for t, v in cs if not t.startswith("discr(")]
+                if not var or not isinstance(var[-1], int):
+                    if stored:
+                        problems.append("a path marks the field matched without looking at the stored matcher's kind")
+                    continue
+                vn = vname.get(var[-1], str(var[-1]))
+                if len(tests) != 1:
+                    problems.append("%s: %d tests on one path" % (vn, len(tests)))
+                    continue
+                k = kind(tests[0][0])
+                table[vn] = k
+                if stored != (tests[0][1] != 0):
+                    problems.append("%s: the field is marked matched on the %s edge of its test" % (vn, "false" if stored else "true edge is ignored, not on the"))
+            if table != want:
+                problems.append("variants tested: %s, expected %s" % (table, want))
+            if problems:
+                ck.bad("C11.R15", key, where(b.raw["sp"]), "; ".join(sorted(set(problems))[:3]), fn=b.path)
+            else:
+                ck.ok("C11.R15", key, fn=b.path)
